@@ -565,6 +565,8 @@ def r7(tree, rep):
 
 
 def run(tree, rep, tier):
+    from .. import round9 as _r9
+    _r9.completions_from_wordlist(tree, rep, "C19.R8")
     r6(tree, rep)
     r7(tree, rep)
     r1(tree, rep)
